@@ -85,7 +85,7 @@ PROVENANCE: dict[str, tuple[list[str], str, list[str]]] = {
 Y_PROVENANCE: dict[str, tuple[list[str], str]] = {
     "dead": (["y: object = T('y')"], "y"),
     "arg": ([], "b"),
-    "lit": ([], "None"),
+    "lit": ([], "'c06-y-literal'"),
 }
 UNHASHABLE: set[str] = set()
 
